@@ -21,6 +21,8 @@ def run_extract(c, d):
             fh.write(text)
     script = os.path.join(d, c['script'])
     prof_mod = [os.path.join(d, x[5:]) if x.startswith('PATH:') else x for x in c['prof_mod']]
+    # as kernprof hands them over: an entry that is not an existing file name is split at commas
+    prof_mod = sum(([spec] if os.path.exists(spec) else spec.split(',') for spec in prof_mod), [])
     old = list(sys.path)
     old_cwd = os.getcwd()
     os.chdir(d)
